@@ -3,6 +3,7 @@
   ops=  H:e0,P:p1,PD:e0,X:..,Y:..,Z:..,I:..,CX:e0:p1,CZ:e0:e1,CCX:e0:p1:c0,CCZ:e0:p1:c0,MCR:e0:p1:c0,MZ:p0:c1,W:Hadamard.Phase:p0
 -/
 import GraphiqModel.Model.Circuit
+import GraphiqModel.Model.Check
 import Driver.Proto
 import Driver.CmdTab
 namespace Graphiq.CmdCirc
@@ -61,9 +62,34 @@ def stab (a : Args) : String :=
     | some s =>
       s!"ok {CmdTab.showTab s.t} rec={bitsStr (finalRecord nc s.writes)} outs={bitsStr s.outs} rand={bitsStr s.rand} left={s.script.length} valid={b01 s.t.isSymplectic}"
 
+/-- circ.check ne= np= a=<np×np adjacency bits> ops=…  [max=<cap on the number of scripts; default all 2^m>]
+    runs the verified validator; `all=1` iff every script of the full enumeration was run -/
+def check (a : Args) : String :=
+  let ne := getNat a "ne"
+  let np := getNat a "np"
+  match opsOf (get a "ops") with
+  | none => "err value"
+  | some ops =>
+    let rows := rowsOf np (get a "a")
+    let adj : Nat → Nat → Bool := lookup2 rows
+    let target := targetSTab np ne adj
+    let m := countMeas ops
+    let cap := if has a "max" then getNat a "max" else 0
+    if cap = 0 ∨ 2 ^ m ≤ cap then
+      s!"ok gen={b01 (checkGenerates ne np ops adj)} scripts={2 ^ m} all=1 m={m}"
+    else
+      -- sampled: all-zero, all-one and `cap` pseudo-random scripts (testing only; the soundness theorem does not apply)
+      let lcg (x : Nat) : Nat := (x * 1103515245 + 12345) % 2147483648
+      let scripts : List (List Bool) :=
+        (List.replicate m false) :: (List.replicate m true) ::
+          (List.range cap).map fun k =>
+            ((List.range m).foldl (fun (acc : List Bool × Nat) _ => let x := lcg acc.2; (((x / 65536) % 2 == 1) :: acc.1, x)) ([], k + 17)).1
+      s!"ok gen={b01 (scripts.all (checkScript ne np ops target))} scripts={scripts.length} all=0 m={m}"
+
 def dispatch (cmd : String) (a : Args) : Option String :=
   match cmd with
   | "circ.stab" => some (stab a)
+  | "circ.check" => some (check a)
   | _ => none
 
 end Graphiq.CmdCirc
